@@ -296,6 +296,7 @@ pub struct Broker {
     flush_scheduled: bool,
     pub silent: bool,
     closeok_enqueued: bool,
+    open_ok_on_wire: bool,
     pub s2c: Vec<u8>,
     s2c_closed: bool,
     last_s2c_at: u64,
@@ -356,6 +357,7 @@ impl Broker {
             flush_scheduled: false,
             silent: false,
             closeok_enqueued: false,
+            open_ok_on_wire: false,
             s2c: Vec::new(),
             s2c_closed: false,
             last_s2c_at: 0,
@@ -411,6 +413,9 @@ impl Broker {
     fn enqueue_now(&mut self, ch: u16, frames: Vec<Vec<u8>>, what: SentKind) {
         if self.silent || self.s2c_closed || self.closeok_enqueued {
             return;
+        }
+        if let SentKind::Handshake("open-ok") = &what {
+            self.open_ok_on_wire = true;
         }
         if let SentKind::ConnectionCloseOk = &what {
             // nothing follows the CloseOk
@@ -927,7 +932,8 @@ impl Broker {
     }
 
     fn retry_later(&mut self, action: Action, n: u32) {
-        if n < 40000 && self.phase == Phase::Open && !self.s2c_closed {
+        let alive = matches!(self.phase, Phase::Open | Phase::AwaitHeader | Phase::AwaitStartOk | Phase::AwaitTuneOk | Phase::AwaitOpen);
+        if n < 40000 && alive && !self.s2c_closed {
             simrt::schedule_in(250_000, true, "broker.retry", Box::new(BrokerEv::Retry(action, n + 1)));
         }
     }
@@ -961,6 +967,12 @@ impl Broker {
                 self.enqueue_now(ch, vec![Self::m(ch, AMQPClass::Channel(Ch::Close(close)))], SentKind::ChannelClose { ch, code, text });
             }
             Action::CloseConnection { code, text } => {
+                let handshaking = matches!(self.phase, Phase::AwaitHeader | Phase::AwaitStartOk | Phase::AwaitTuneOk | Phase::AwaitOpen) || (self.phase == Phase::Open && !self.open_ok_on_wire);
+                if handshaking && self.cfg.handshake.is_none() {
+                    // a scripted close aimed at the open connection: wait until it is open
+                    self.retry_later(Action::CloseConnection { code, text }, attempt);
+                    return;
+                }
                 if self.phase != Phase::Open {
                     return;
                 }
